@@ -271,6 +271,36 @@ def minmax_orderings(ctx, rng):
                 ctx.count("minmax_ordering_cases", 2)
 
 
+def one_shot_rules(ctx, rng):
+    """rules that fire once (at the start, or at a given time) executed where a volume is in play: `volume` in their formula is
+    the volume at hand, as it is for repeated rules."""
+    from bioscrape.types import Model
+    for freq, t_fire in (("start", 0.0), (2.0, 2.0), ("repeated", 0.5), ("dt", 0.5)):
+        for target, eq in (("Z", "Z = k_cat*volume + A"), ("pz_rule", "pz_rule = A*volume^2")):
+            pars = {p_: 1.0 for p_ in PARAMS}
+            pars.update({"pz_rule": 1.0})
+            M = Model(species=list(SPECIES) + ["Z"], parameters=pars, reactions=[([], ["A"], "massaction", {"k": "k_cat"})],
+                      rules=[("assignment", {"equation": eq}, freq)], initial_condition_dict={s_: 1.0 for s_ in SPECIES})
+            rule = M.__getstate__()[6][0]
+            sl, pl = M.get_species_list(), M.get_param_list()
+            for vol in (0.5, 2.5):
+                env = make_env(rng)
+                x = np.array([env.get(s_, 0.0) for s_ in sl], dtype=float)
+                p_ = np.array([env.get(q, 1.0) for q in pl], dtype=float)
+                case = {"rule": eq, "frequency": freq, "time": t_fire, "volume": vol, "env": env}
+                ctx.begin_case(case)
+                x2, p2 = x.copy(), p_.copy()
+                rule.py_execute_volume_rule(x2, p2, vol, t_fire, 0.5, True)
+                ctx.evaluated()
+                want = env["k_cat"] * vol + env["A"] if target == "Z" else env["A"] * vol ** 2
+                got = x2[sl.index("Z")] if target == "Z" else p2[pl.index("pz_rule")]
+                if relerr(got, want) > 1e-12 and abs(got - want) > 1e-12:
+                    ctx.violation("value/one-shot-rule", "rule '%s' of frequency %r executed at t=%g with volume %g gives %r, the written formula means %r"
+                                  % (eq, freq, t_fire, vol, float(got), want), case)
+                    return
+                ctx.count("one_shot_rule_cases")
+
+
 def malformed(ctx, rng):
     """unknown names and broken syntax are rejected when the model is built - by both."""
     from bioscrape.types import Model
@@ -386,6 +416,7 @@ def run(ctx):
         one_expr(ctx, rng, rng.randint(1, 5))
     operator_positions(ctx, rng)
     minmax_orderings(ctx, rng)
+    one_shot_rules(ctx, rng)
     malformed(ctx, rng)
     underscore_alias(ctx)
     growth_law_traces(ctx, rng)
